@@ -3,6 +3,7 @@ package main
 // SSA (naive form) -> verification conditions.
 
 import (
+	"regexp"
 	"fmt"
 	"go/ast"
 	"go/constant"
@@ -110,6 +111,7 @@ type enc struct {
 	mapEpoch       int
 	cellSortOf     map[string]string
 	ghostCells     map[string]*ghostCell
+	sentCounters   map[string]string // channel name (as in send:<name> sites) -> ghost counter cell, for sent(<name>)
 	protCache      map[*ssa.Alloc]bool
 	nObj           int
 	volatileLocals map[*ssa.Alloc]bool
@@ -160,6 +162,7 @@ func (p *Program) encodeFuncPass(fn *ssa.Function, pre map[string]*ghostCell, pr
 		cellSortOf: map[string]string{}, ghostCells: map[string]*ghostCell{}, protCache: map[*ssa.Alloc]bool{}, volatileLocals: map[*ssa.Alloc]bool{},
 	}
 	e.out = &FuncVC{Func: e.qn, Notes: map[string]bool{}}
+	e.registerSentCounters()
 	e.projs, e.elemAddr = map[string]*projInfo{}, map[string]bool{}
 	e.firstPass = pre == nil && preProjs == nil
 	e.lockTouched = map[string]bool{}
@@ -199,6 +202,12 @@ func (e *enc) theoryAxioms() {
 			e.out.Decls = append(e.out.Decls, "(assert "+a+")")
 		}
 		e.note("string containment: x occurs in a+x; what occurs in a or in b occurs in a+b (lemmas theory/strings/contains_*.smt2, proved by cvc5 over native strings)")
+	}
+	if lit, ok := e.strLits[""]; ok {
+		e.out.Decls = append(e.out.Decls,
+			"(assert (forall ((a Str)) (! (= (strcat a "+lit+") a) :pattern ((strcat a "+lit+")))))",
+			"(assert (forall ((a Str)) (! (= (strcat "+lit+" a) a) :pattern ((strcat "+lit+" a)))))")
+		e.note("the empty string is neutral for concatenation (lemma theory/strings/affix_empty.smt2, proved by cvc5 over native strings)")
 	}
 	if e.declared["hasSuffix"] {
 		e.out.Decls = append(e.out.Decls,
@@ -1409,6 +1418,9 @@ func (e *enc) loopHead(li *loopInfo, st *State) {
 				switch x := ins.(type) {
 				case *ssa.Send:
 					name := e.valText(x.Chan)
+					if cell, ok := e.sentCounters[name]; ok {
+						st.cells[cell] = e.fresh(cell+"_"+tag, "Int")
+					}
 					for _, cl := range e.c.calls[fmt.Sprintf("send:%s#%d", name, e.sendOrdinal(x.Pos(), name))] {
 						if cl.kind == "bind" {
 							hv(cl.name)
@@ -1432,6 +1444,9 @@ func (e *enc) loopHead(li *loopInfo, st *State) {
 								}
 							}
 						} else {
+							if cell, ok := e.sentCounters[name]; ok {
+								st.cells[cell] = e.fresh(cell+"_"+tag, "Int")
+							}
 							for _, cl := range e.c.calls[fmt.Sprintf("send:%s#%d", name, e.sendOrdinal(s.Pos, name))] {
 								if cl.kind == "bind" {
 									hv(cl.name)
@@ -1490,6 +1505,7 @@ func (e *enc) latch(b *ssa.BasicBlock, st *State, cond string, h *ssa.BasicBlock
 	if len(lc.steps) > 0 && li.hstate != nil {
 		senv := e.envFor(st, e.entry)
 		senv.prev = li.hstate
+		senv.loop = li
 		for i, sc := range lc.steps {
 			if g, ok := e.tryEvalBool(sc.expr, senv, "loop step"); ok {
 				e.oblige("inv-pres", fmt.Sprintf("%s:step:%s", tag, clauseKey(sc, i)), g, token.NoPos, sc.text)
@@ -1598,5 +1614,64 @@ func (e *enc) exit() {
 	for i, en := range e.c.ensures {
 		g := e.evalBool(en.expr, env, "ensures")
 		e.oblige("post", clauseKey(en, i), g, token.NoPos, en.text)
+	}
+}
+
+// ---- sent(<chan>): ghost count of the values this activation has sent on a channel ---------------------
+// The channel is named as in "send <chan>#k" clauses. The counter is 0 at entry, goes up by one at every send
+// on that channel (in a select: when that case is the one taken) and is forgotten at the head of every loop
+// that sends on it, like any other cell the loop writes. Counters exist for the names the contract mentions.
+var reSent = regexp.MustCompile(`\bsent\(([\w.]+)\)`)
+
+func (e *enc) registerSentCounters() {
+	e.sentCounters = map[string]string{}
+	if e.c == nil {
+		return
+	}
+	scan := func(text string) {
+		for _, m := range reSent.FindAllStringSubmatch(text, -1) {
+			name := m[1]
+			if _, ok := e.sentCounters[name]; ok {
+				continue
+			}
+			cell := "G_sent_" + sanitize(name)
+			e.sentCounters[name] = cell
+			e.cellSortOf[cell] = "Int"
+			e.declare(cell+"_0", "Int")
+			e.assertOnce("(= " + cell + "_0 0)")
+		}
+	}
+	for _, cl := range e.c.requires {
+		scan(cl.text)
+	}
+	for _, cl := range e.c.ensures {
+		scan(cl.text)
+	}
+	for _, lc := range e.c.loops {
+		for _, cl := range lc.invariants {
+			scan(cl.text)
+		}
+		for _, cl := range lc.steps {
+			scan(cl.text)
+		}
+	}
+	for _, ccs := range e.c.calls {
+		for _, cc := range ccs {
+			scan(cc.text)
+		}
+	}
+}
+
+// countSend: cond == "" for a plain send, else the condition under which the send happens (select case taken).
+func (e *enc) countSend(st *State, ch ssa.Value, cond string) {
+	cell, ok := e.sentCounters[e.valText(ch)]
+	if !ok {
+		return
+	}
+	old := e.get(st, cell, "Int")
+	if cond == "" {
+		st.cells[cell] = fmt.Sprintf("(+ %s 1)", old)
+	} else {
+		st.cells[cell] = fmt.Sprintf("(ite %s (+ %s 1) %s)", cond, old, old)
 	}
 }
